@@ -9,6 +9,7 @@ import (
 	"strings"
 	"time"
 
+	_ "verif/internal/astnames" // enumerations by constant name in projected trees
 	"verif/internal/core"
 )
 
@@ -205,6 +206,14 @@ func opName(t map[string]any) string {
 	return ""
 }
 
+// fields whose string value is a keyword or keyword phrase
+var keywordField = map[string]bool{"Operator": true, "LockType": true, "FetchType": true, "ObjectType": true, "CascadeType": true, "ShowType": true,
+	"WithOption": true, "ActionType": true, "OnDelete": true, "OnUpdate": true, "Direction": true}
+
+// node types whose Type field is a keyword or keyword phrase
+var keywordTypeOf = map[string]bool{"CastExpression": true, "JoinClause": true, "WindowFrame": true, "WindowFrameBound": true, "ColumnDef": true,
+	"ColumnConstraint": true, "TableConstraint": true, "PartitionBy": true, "MergeWhenClause": true}
+
 // FoldWords upper-cases the string values of the fields that hold operator words and type names, which the
 // properties compare "up to the letter case of keywords and operator words".
 func FoldWords(v any) any {
@@ -212,8 +221,9 @@ func FoldWords(v any) any {
 	case map[string]any:
 		out := make(map[string]any, len(x))
 		for k, c := range x {
-			if s, ok := c.(string); ok && (k == "Operator" || k == "LockType" || k == "FetchType" ||
-				(k == "Type" && (x["T"] == "CastExpression" || x["T"] == "JoinClause" || x["T"] == "WindowFrame" || x["T"] == "WindowFrameBound"))) {
+			if s, ok := c.(string); ok && (keywordField[k] || (k == "Type" && keywordTypeOf[fmt.Sprint(x["T"])]) ||
+				// a keyword phrase kept as text (the mode words of MATCH ... AGAINST), TRUE / FALSE
+				(k == "Value" && x["T"] == "LiteralValue" && (x["Type"] == "STRING" || x["Type"] == "bool"))) {
 				out[k] = strings.ToUpper(s)
 			} else {
 				out[k] = FoldWords(c)
